@@ -611,4 +611,4 @@ LEVEL_TEXT = ('Machine-checked proofs (Lean 4) on UTF-8 byte strings and, lifted
               'correspondence over the complete bounded string space plus long random strings, and an independent oracle written from the statement decides failing inputs.')
 LEVEL_NOTE = ('Trusted: Lean kernel + standard axioms; the harness and oracle; that the UTF-8 models are CPython\'s str.encode / replace-decoding (transcribed, tied by correspondence; their inverse law is proved); '
               'unquote_string: model Fw.unquoteString tied by correspondence. The Cython twin is not exercised.')
-TECHNIQUE = 'Lean 4 proofs about a transcribed model (3 decode paths, 4 encoders, parse_host; byte level and str level with a refinement theorem between them; UTF-8 codec pair) + exhaustive-bounded and random differential correspondence + statement oracle'
+TECHNIQUE = 'Lean 4 proofs about a transcribed model (3 decode paths, 4 encoders, parse_host, unquote_string; byte level and str level with a refinement theorem between them; UTF-8 codec pair) + exhaustive-bounded and random differential correspondence + statement oracle'
